@@ -771,7 +771,7 @@ def make_truth(spec, infos, taplog, frames_meta, drop, cut_lo, cut_hi, dups):
                     # undecryptable for everyone, so its data is not part of what can be exported.
                     payload = b""
                     for pk in dm[e["dg"]]["pk"]:
-                        if pk["kind"] == "retry":
+                        if pk["kind"] in ("retry", "vneg"):
                             continue
                         key = (e["d"], pk["space"])
                         L = largest.get(key, int((spec.get("pn_preset") or {}).get(str(conn["c"]["port"]), {}).get(e["d"], {}).get(pk["space"], 0)) if pk["space"] == "RTT_1" else 0)
